@@ -1,0 +1,94 @@
+//! Runs the real x86-64 relaxation decision (`ElfX86_64::new_relaxation`) and byte rewriting
+//! (`RelaxationKind::apply`) on a caller-supplied section image. Adds no behaviour.
+
+use crate::args::RelocationModel;
+use crate::elf_x86_64::ElfX86_64;
+use crate::output_kind::OutputKind;
+use crate::platform::Arch as _;
+use crate::platform::Relaxation as _;
+use crate::value_flags::ValueFlags;
+use linker_utils::elf::SectionFlags;
+use linker_utils::relaxation::RelocationModifier;
+
+/// Result of `new_relaxation` followed by `apply`.
+pub struct X86RelaxOutcome {
+    /// `Debug` rendering of the `RelaxationKind`.
+    pub kind: String,
+    /// The x86-64 relocation type whose `relocation_from_raw` equals the relaxation's `rel_info`
+    /// (searched among the types `new_relaxation` can produce); `u32::MAX` if none matches.
+    pub new_r_type: u32,
+    pub mandatory: bool,
+    pub skip_next: bool,
+    pub bytes: Vec<u8>,
+    pub offset: u64,
+    pub addend: i64,
+}
+
+/// `output_kind`: 0 = static non-relocatable exe, 1 = static PIE, 2 = dynamic non-relocatable
+/// exe, 3 = dynamic PIE, 4 = shared object, 5 = relocatable (partial link).
+pub(crate) fn output_kind_from_index(i: u32) -> OutputKind {
+    match i {
+        0 => OutputKind::StaticExecutable(RelocationModel::NonRelocatable),
+        1 => OutputKind::StaticExecutable(RelocationModel::Relocatable),
+        2 => OutputKind::DynamicExecutable(RelocationModel::NonRelocatable),
+        3 => OutputKind::DynamicExecutable(RelocationModel::Relocatable),
+        4 => OutputKind::SharedObject,
+        _ => OutputKind::Relocatable,
+    }
+}
+
+const CANDIDATE_R_TYPES: &[u32] = &[
+    object::elf::R_X86_64_PC32,
+    object::elf::R_X86_64_PLT32,
+    object::elf::R_X86_64_32,
+    object::elf::R_X86_64_32S,
+    object::elf::R_X86_64_TPOFF32,
+    object::elf::R_X86_64_GOTTPOFF,
+    object::elf::R_X86_64_GOTOFF64,
+    object::elf::R_X86_64_NONE,
+    object::elf::R_X86_64_64,
+    object::elf::R_X86_64_GOTPCREL,
+];
+
+pub fn x86_relax(
+    r_type: u32,
+    section_bytes: &[u8],
+    offset: u64,
+    value_flags: u16,
+    output_kind: u32,
+    section_flags: u32,
+    addend: i64,
+) -> Option<X86RelaxOutcome> {
+    let relaxation = ElfX86_64::new_relaxation(
+        r_type,
+        section_bytes,
+        offset,
+        ValueFlags::from_bits_retain(value_flags),
+        output_kind_from_index(output_kind),
+        SectionFlags::from_u32(section_flags),
+        true,
+        None,
+    )?;
+    let info = format!("{:?}", relaxation.rel_info());
+    let new_r_type = CANDIDATE_R_TYPES
+        .iter()
+        .copied()
+        .find(|t| {
+            linker_utils::x86_64::relocation_from_raw(*t)
+                .is_some_and(|i| format!("{i:?}") == info)
+        })
+        .unwrap_or(u32::MAX);
+    let mut bytes = section_bytes.to_vec();
+    let mut offset = offset;
+    let mut addend = addend;
+    relaxation.apply(&mut bytes, &mut offset, &mut addend);
+    Some(X86RelaxOutcome {
+        kind: format!("{:?}", relaxation.debug_kind()),
+        new_r_type,
+        mandatory: relaxation.is_mandatory(),
+        skip_next: relaxation.next_modifier() == RelocationModifier::SkipNextRelocation,
+        bytes,
+        offset,
+        addend,
+    })
+}
